@@ -89,7 +89,18 @@ func Rewrite(t *rapid.T, cfg Cfg) *ast.Node {
 	s := &state{cfg: cfg}
 	var piece func(d int) *ast.Node
 	piece = func(d int) *ast.Node {
-		switch rapid.IntRange(0, 14).Draw(t, "rwpiece") {
+		switch rapid.IntRange(0, 15).Draw(t, "rwpiece") {
+		case 15:
+			// inside a lookbehind the pieces run right to left: a literal of two or more characters
+			// followed (in the text) by a loop that overlaps the literal's last but not its first character
+			c1, c2 := s.rwChar(t), s.rwChar(t)
+			for c2 == c1 {
+				c2 = 'q'
+			}
+			loop := ast.Quant(ast.Class(&cls.Expr{Items: []cls.Item{{Kind: cls.Char, Lo: c2}, {Kind: cls.Char, Lo: s.rwChar(t)}}}), 0, -1, rapid.IntRange(0, 3).Draw(t, "rwlblazy") == 0)
+			s.quantBounds(t, loop)
+			k := rapid.SampledFrom([]ast.GKind{ast.GLookbehind, ast.GLookbehind, ast.GNegLookbehind}).Draw(t, "rwlbkind")
+			return ast.Seq(ast.Group(k, ast.Seq(ast.Lit(c1, c2), loop)), s.rwStr(t, 1, 1))
 		case 14:
 			// balancing group whose body ends in a choice that decides whether the popped group holds a
 			// capture: leaving the group can fail and backtrack into the body, so the body is not "at the end"
